@@ -147,6 +147,7 @@ func runC12(c *core.Ctx) core.Meta {
 	c.Load(driverPkg)
 	c.BuildSSA()
 	pd := NewPkgInfo(c, driverPkg)
+	checkNoCompactionWhileRanging(c, "R12.21", 7, pd)
 	prov := core.NewLocalProv(c)
 
 	// ---------------- R12.1 no droppable notification ----------------
